@@ -78,7 +78,7 @@ def run(ctx):
                 ctx.sample({"program": prog})
         # spec -> code: every input of the sessions TLC explores on the model's universe (design level: theorems Closed / Prefix of MC_CAM),
         # and every strict prefix of the encodings the specification built
-        uprogs, ukw, sessions, _ = speccode.explore(ctx, focus="all", part=speccode.part_of(ctx, 8 if quick else 16))
+        uprogs, ukw, sessions, _ = speccode.explore(ctx, focus="all", part=speccode.part_of(ctx, 32 if quick else 48))
         def on(camp, prog, con, s, idx):
             b = idx["calls"].get("build")
             if b is not None and b["res"]["ok"]:
